@@ -132,6 +132,10 @@ func init() {
 	v("Implies", func(fr *frame, args []value) value {
 		return mkScalar(Or(Not(boolTerm(args[0])), boolTerm(args[1])), types.Bool)
 	})
+	v("NotNegZero", func(fr *frame, args []value) value {
+		a, _, _ := scalarTerm(args[0])
+		return mkScalar(Not(Eq(a, F64Const(negZero()))), types.Bool)
+	})
 	v("IteF64", func(fr *frame, args []value) value {
 		a, _, _ := scalarTerm(args[1])
 		b, _, _ := scalarTerm(args[2])
@@ -156,6 +160,8 @@ func init() {
 			fr.i.sched.explore = n != 0
 		case "race":
 			fr.i.sched.race = n != 0
+		case "preempt":
+			fr.i.sched.maxPreempt = n
 		default:
 			panic(pathAbort{"engine", "verif.Opt: unknown option " + name})
 		}
